@@ -319,7 +319,19 @@ pub fn journal_case(rng: &mut Rng, i: u64, inp: &mut String, out: &mut String) {
         let nops = rng.below(11);
         for op in 0..nops {
             snaps.push((journal.inner.journal.len(), balances_of(&journal, n_addr)));
-            let (x, y) = (addr(1 + rng.below(n_addr)), addr(1 + rng.below(n_addr)));
+            let (mut x, y) = (addr(1 + rng.below(n_addr)), addr(1 + rng.below(n_addr)));
+            // prefer sources that carry a designator and still hold something
+            let rich: Vec<Address> = (1..=6u64)
+                .map(addr)
+                .filter(|a| {
+                    journal.inner.state.get(a).is_some_and(|acc| {
+                        !acc.info.balance.is_zero() && acc.info.code.as_ref().is_some_and(|c| c.is_eip7702())
+                    })
+                })
+                .collect();
+            if !rich.is_empty() && rng.chance(1, 2) {
+                x = *rng.pick(&rich);
+            }
             let bal_x = journal.inner.state.get(&x).map_or(U256::ZERO, |a| a.info.balance);
             let amount = match rng.below(6) {
                 0 => U256::ZERO,
